@@ -4,6 +4,8 @@ package main
 // sites inside an init function are resolved from the current SSA.
 
 import (
+	"os"
+	"path/filepath"
 	"fmt"
 	"go/constant"
 	"go/types"
@@ -265,5 +267,133 @@ func init() {
 	vxAPI["vxSplitIndex"] = func(ex *Exec, fr *Frame, fn *ssa.Function, args []Value, site ssa.Instruction) Value {
 		ex.splitIndex = true
 		return nil
+	}
+}
+
+func init() {
+	findInit := func(ex *Exec, fr *Frame, initName string) *ssa.Function {
+		var initFn *ssa.Function
+		if fr != nil && fr.fn != nil && fr.fn.Pkg != nil {
+			initFn = fr.fn.Pkg.Func(initName)
+		}
+		if initFn == nil {
+			ex.unsupported("native sweep: no function %s in the harness package", initName)
+		}
+		return initFn
+	}
+	// the Def(...) registrations of an init function that are plain function literals, in source order
+	sweepSites := func(ex *Exec, fr *Frame, initName string) []defSite {
+		var out []defSite
+		all := ex.P.defSites(findInit(ex, fr, initName))
+		last := map[string]int{}
+		for i, ds := range all {
+			last[ds.Name] = i
+		}
+		for i, ds := range all {
+			// a later Def of the same name replaces an earlier one at run time
+			if ds.Fn != nil && !ds.Bound && last[ds.Name] == i {
+				out = append(out, ds)
+			}
+		}
+		return out
+	}
+	vxAPI["vxNativeCount"] = func(ex *Exec, fr *Frame, fn *ssa.Function, args []Value, site ssa.Instruction) Value {
+		return ex.goInt(int64(len(sweepSites(ex, fr, argString(ex, args[0])))))
+	}
+	vxAPI["vxNativeNameAt"] = func(ex *Exec, fr *Frame, fn *ssa.Function, args []Value, site ssa.Instruction) Value {
+		initName, i := argString(ex, args[0]), argInt(ex, args[1])
+		sites := sweepSites(ex, fr, initName)
+		if i < 0 || i >= len(sites) {
+			ex.unsupported("native sweep: index %d out of %d", i, len(sites))
+		}
+		if ex.notes == nil {
+			ex.notes = map[string]string{}
+		}
+		ex.notes[fmt.Sprintf("note:native:%s:%d", initName, i)] = sites[i].Name
+		return ex.strConst(sites[i].Name)
+	}
+	// vxNativeAtIndex(initFn string, class *value.Class, i int) NativeFunction
+	vxAPI["vxNativeAtIndex"] = func(ex *Exec, fr *Frame, fn *ssa.Function, args []Value, site ssa.Instruction) Value {
+		initName, i := argString(ex, args[0]), argInt(ex, args[2])
+		sites := sweepSites(ex, fr, initName)
+		if i < 0 || i >= len(sites) {
+			ex.unsupported("native sweep: index %d out of %d", i, len(sites))
+		}
+		return &FuncV{Fn: sites[i].Fn}
+	}
+	// vxReadFile(rel string) string: a file of the repository under test, read at run time
+	vxAPI["vxReadFile"] = func(ex *Exec, fr *Frame, fn *ssa.Function, args []Value, site ssa.Instruction) Value {
+		rel := argString(ex, args[0])
+		data, err := os.ReadFile(filepath.Join(repoDir, rel))
+		if err != nil {
+			ex.unsupported("vxReadFile: %v", err)
+		}
+		return ex.strConst(string(data))
+	}
+}
+
+// headerSignature: the same line-based reader as the harness's native vxHeaderSig (kept in step
+// with it): the k-th `def name` line of a header file -> "p1,p2|ret", "" when there is none.
+func headerSignature(text, name string, overload int) string {
+	k := 0
+	for _, line := range strings.Split(text, "\n") {
+		i := strings.Index(line, "def "+name)
+		if i < 0 {
+			continue
+		}
+		rest := line[i+4+len(name):]
+		if len(rest) == 0 || (rest[0] != '(' && rest[0] != ':' && rest[0] != ';') {
+			continue
+		}
+		if i > 0 && line[i-1] != ' ' && line[i-1] != '\t' {
+			continue
+		}
+		var params []string
+		ret := ""
+		if rest[0] == '(' {
+			j := strings.Index(rest, ")")
+			if j < 0 {
+				continue
+			}
+			for _, p := range strings.Split(rest[1:j], ",") {
+				c := strings.Index(p, ":")
+				if c < 0 {
+					params = append(params, "?")
+					continue
+				}
+				t := strings.TrimSpace(p[c+1:])
+				if e := strings.Index(t, "="); e >= 0 {
+					t = strings.TrimSpace(t[:e])
+				}
+				params = append(params, t)
+			}
+			rest = rest[j+1:]
+		}
+		if len(rest) > 0 && rest[0] == ':' {
+			r := rest[1:]
+			if e := strings.Index(r, ";"); e >= 0 {
+				r = r[:e]
+			}
+			if e := strings.Index(r, "!"); e >= 0 {
+				r = r[:e]
+			}
+			ret = strings.TrimSpace(r)
+		}
+		if k == overload {
+			return "ok\x1f" + strings.Join(params, ",") + "\x1f" + ret
+		}
+		k++
+	}
+	return ""
+}
+
+func init() {
+	vxAPI["vxHeaderSig"] = func(ex *Exec, fr *Frame, fn *ssa.Function, args []Value, site ssa.Instruction) Value {
+		rel, name, overload := argString(ex, args[0]), argString(ex, args[1]), argInt(ex, args[2])
+		data, err := os.ReadFile(filepath.Join(repoDir, rel))
+		if err != nil {
+			ex.unsupported("vxHeaderSig: %v", err)
+		}
+		return ex.strConst(headerSignature(string(data), name, overload))
 	}
 }
